@@ -18,6 +18,9 @@ use structopt::StructOpt;
 fn main() {
     let opt = Opt::from_args();
 
+    // set if build or writing of any output is failed
+    let mut failed = false;
+
     let file_name = opt
         .source
         .clone()
@@ -55,10 +58,13 @@ fn main() {
 
                 match write_code_hex(outpath, &built) {
                     Ok(()) => {}
-                    Err(e) => println!(
-                        "Failed to generate and write hex file {}, with error {}",
-                        file_name, e
-                    ),
+                    Err(e) => {
+                        failed = true;
+                        println!(
+                            "Failed to generate and write hex file {}, with error {}",
+                            file_name, e
+                        )
+                    }
                 }
             } else {
                 println!("Nothing to write of code for file {}", file_name);
@@ -91,10 +97,13 @@ fn main() {
 
                 match write_eeprom_hex(outpath, &built) {
                     Ok(()) => {}
-                    Err(e) => println!(
-                        "Failed to generate and write hex file {}, with error {}",
-                        file_name, e
-                    ),
+                    Err(e) => {
+                        failed = true;
+                        println!(
+                            "Failed to generate and write hex file {}, with error {}",
+                            file_name, e
+                        )
+                    }
                 }
             } else {
                 println!("Nothing to write of eeprom for file {}", file_name);
@@ -128,7 +137,12 @@ fn main() {
             }
         }
         Err(e) => {
+            failed = true;
             println!("Failed to build file {}, with error {}", file_name, e);
         }
+    }
+
+    if failed {
+        std::process::exit(1);
     }
 }
